@@ -69,7 +69,7 @@ def _mutate(ev):
     ev = json.loads(json.dumps(ev))
     if ev.get("ev") == "Syntax" and ev.get("views"):
         for v in ev["views"]:
-            if v.get("k") == "seq" and v.get("p"):
+            if v.get("k") == "ok" and v.get("p"):
                 p = v["p"][0]
                 if p["cond"] != ["none"]:
                     p["cond"] = ["not", p["cond"]]
@@ -90,7 +90,7 @@ C05 = dict(
     extra_traces=_corpus,
     nontrivial=lambda ev: ev.get("ev") in ("Syntax", "Stable") and bool(ev.get("views")),
     key=lambda ev: [ev.get("pols"), ev.get("style"), ev.get("src")],
-    mutate=_mutate, chunk=3000,
+    mutate=_mutate, chunk=6000,
     rule="G: MC_Syntax (TLC-enumerated surface policy sets, complete for its pools): every operator shape (39: || && == != < <= > >= in + - * "
          "contains containsAll containsAny getTag hasTag `is..in` method and function calls, set and record literals, ! - isEmpty .attr [\"attr\"] has "
          "has-chains like is, if-then-else) in every operand position of every other one over three operand fillers (member expressions, negative "
